@@ -254,6 +254,8 @@ PROPS = {
         design="3/C14"),
     "C15": dict(
         engine="histsim", profile="C15", builds=["dbg", "rwdi", "rel"], level="exploration",
+        parts=[dict(engine="histsim", profile="C15", builds=["dbg", "rwdi", "rel"], weight=3.0),
+               dict(engine="histsim", profile="C15X", builds=["dbg", "rwdi", "rel"], san="plain", weight=1.0)],
         quick_s=40, thorough_s=600,
         technique="deterministic simulation: traits-level histories with moves and leftovers; leak-handler "
                   "oracle bracketed around each destruction",
@@ -262,6 +264,35 @@ PROPS = {
              "the model's net (or not at all when balanced / moved-from / checking off).",
         note="Exit-time reports of the stateless allocators are checked by deathsim (same property).",
         design="3/C15"),
+    "C16": dict(
+        engine="histsim", profile="C16", builds=["dbg", "rwdi"], level="fault_enumeration",
+        parts=[dict(engine="histsim", profile="C16", builds=["dbg", "rwdi"], san="plain", weight=1.0)],
+        quick_s=40, thorough_s=600, chunk=40,
+        rule="each run = a valid seeded operation history (prefix) on a pool or stack followed by the complete "
+             "misuse table: {pointer outside every chunk: other allocator's memory / program stack / chunk header, "
+             "pointer off the node boundary} on small-node pools, double free of the node at the lowest / highest "
+             "address / most recently freed / middle of the free list on node, array and small pools (builds with "
+             "double-free checking), unwind to a marker above the top in the same / a later block, out-of-order or "
+             "repeated deallocate_block on static / virtual / fixed block allocators; every case runs in its own "
+             "forked child whose way of ending (handler with unchanged state, abort, normal return, hang) is the "
+             "observation; distinct = distinct run hash of prefix and outcomes; non-trivial = prefix with growth or "
+             "at least 4 allocations, and a release",
+        exhaustive_subspaces="misuse kind x position class table: complete for every sampled prefix",
+        stubs=["SimHeap upstream", "invalid-pointer handler that compares the allocator's capacity readings with a "
+               "snapshot taken right before the bad call and exits with a status"],
+        technique="deterministic simulation with fault injection: the fault is client misuse injected after a valid "
+                  "seeded history, the complete misuse table per sampled prefix, each case in a forked child of a "
+                  "non-sanitizer build; outcome classification (handler / stopped / continued / hang). No false "
+                  "reports is an invariant of every other histsim run",
+        text="Plain (non-sanitizer) builds with pointer checking (and double-free checking in the Debug "
+             "configuration): after a valid history one misuse is made; the child must end in the invalid-pointer "
+             "handler with the allocator's observable state still unchanged, or be stopped by an assertion/abort; "
+             "returning normally or hanging is a violation, SIGSEGV is counted as 'stopped (uncontrolled)'. The "
+             "converse - valid releases never trigger a report - is checked by a recording handler in every run "
+             "of every histsim check (class false_invalid_pointer_report).",
+        note="Cases whose check is compiled out in a build are not run there (double free outside the Debug "
+             "configuration).",
+        design="3/C16"),
     "C17": dict(
         engine="histsim", profile="C17", builds=["dbg", "dbg16", "rwdi"], level="fault_enumeration",
         quick_s=45, thorough_s=600,
